@@ -19,7 +19,7 @@ CHECKS = {
 
 CHECKS["C16"] = dict(engine="table", technique="stateful property-based testing (proptest op histories over the real IP filters, invariant after every step)",
    text="Exploration: generated histories of the filter-respecting table API with signed records drawn from few /24 subnets, full buckets, pending promotion and subnet-moving updates; per-bucket (2) and per-table (10) limits evaluated after every elementary op. Found the pending-slot bypass of the table limit on the pinned tree (fixed).",
-   note="Trusted: enr crate for records; Entry::insert/value_mut excluded (documented to bypass filters); pending deadlines in regimes 0 / 1h+forced. Keys are real key hashes (buckets 250..255). One case in 24 is a companion through the public API: a real service configured with ip_limit (IPv4 / IPv6 / dual stack); a clone of its table must respect the limits, also after promotion of waiting nodes.",
+   note="Trusted: enr crate for records; Entry::insert/value_mut excluded (documented to bypass filters); pending deadlines in regimes 0 / 1h+forced. Keys are real key hashes (buckets 250..255). One case in 24 is a companion through the public API: a real service configured with ip_limit (IPv4 / IPv6 / dual stack); a clone of its table must respect the limits, also after promotion of waiting nodes. Thorough tier adds a coverage-guided libFuzzer campaign over byte-decoded op histories (target c16_ops, same interpreter and invariants).",
    ref="7.2 / C16")
 
 CHECKS["C09"] = dict(engine="query", technique="stateful property-based testing (event histories vs. an independent ledger; step-bounded drain as termination oracle)",
@@ -33,7 +33,7 @@ CHECKS["C10"] = dict(engine="query", technique="property-based testing with a le
 
 CHECKS["C18"] = dict(engine="filter", technique="differential property-based testing against an exact token-bucket reference + metamorphic prune relation + ledger assertions on the real Filter",
    text="Exploration: generated arrival sequences against the real Limiter (explicit time) compared decision-by-decision with an exact integer token bucket, with a never-pruned twin (metamorphic) and a direct all-pairs window bound; generated arrival/permit/ban sequences against the real Filter and the real global permit/ban list with order-independent assertions (banned dropped, permitted passes, conforming passes, bursts bounded, offenders banned for >= the configured duration).",
-   note="Filter reads the real clock: only quotas with a 1 h period are used there (no replenishment within a case). Global PERMIT_BAN_LIST reset per case, one case at a time per process. Also drives the real receive task (VRecv hook: all packet kinds, exemptions) and, in one case in ~300, a running handler's periodic un-ban check in virtual time.",
+   note="Filter reads the real clock: only quotas with a 1 h period are used there (no replenishment within a case). Global PERMIT_BAN_LIST reset per case, one case at a time per process. Also drives the real receive task (VRecv hook: all packet kinds, exemptions) and, in one case in ~300, a running handler's periodic un-ban check in virtual time. Thorough tier adds a coverage-guided libFuzzer campaign over byte-decoded limiter / filter arrival sequences (target c18_events).",
    ref="7.6 / C18")
 
 CHECKS["C05"] = dict(engine="codec", technique="property-based testing: round-trip law + differential against a reference codec written from the wire spec + mutation in the unmasked domain",
@@ -102,7 +102,7 @@ CHECKS["C12"] = dict(engine="svc", technique="stateful property-based testing of
 
 CHECKS["C17"] = dict(engine="svc", technique="stateful property-based testing of the PONG-to-record path of the real service with a vote ledger",
    text="Exploration: generated vote scripts (3..24 voters, minimum 2..6, 2..4 candidate addresses incl. IPv6 in dual stack, voters changing votes across ping rounds, failed pings); whenever the local record's UDP socket changes the ledger must show >= minimum current votes, a unique maximum with the clear-majority margin (all-eligible scripts), the triggering input must be a PONG, seq must grow, the signature must verify and SocketUpdated must be emitted.",
-   note="Votes are per address family, as the record's v4 and v6 sockets are separate. Vote expiry (IpVote reads the real clock) is explored in a separate regime (one case in 41: 80 ms vote duration, measured real idle periods) with a one-directional claim only: an update needs >= minimum peers whose naming of the address is not certainly expired. Six cases in 89 are a vote-table companion (hook VIpVote): blocks of up to 700 voters on the vote table alone, the majority it names is checked against the ledger (minimum, unique maximum, exact 70% rule).",
+   note="Votes are per address family, as the record's v4 and v6 sockets are separate. Vote expiry (IpVote reads the real clock) is explored in a separate regime (one case in 41: 80 ms vote duration, measured real idle periods) with a one-directional claim only: an update needs >= minimum peers whose naming of the address is not certainly expired. Six cases in 89 are a vote-table companion (hook VIpVote): blocks of up to 700 voters on the vote table alone, the majority it names is checked against the ledger (minimum, unique maximum, exact 70% rule). Thorough tier adds a coverage-guided libFuzzer campaign over byte-decoded vote-table histories (target c17_votes).",
    ref="7.4 / C17")
 
 NOT_YET = {}
@@ -144,11 +144,11 @@ def main():
             {"name": "wire", "path": "harness/src/engines/wire.rs, wire_interp.rs", "serves_properties": ["C01", "C02", "C03", "C04", "C13", "C15", "C19"], "kind_free_text": "real Handlers on an in-memory wire inside a paused single-threaded tokio runtime; proptest op schedules"},
             {"name": "svc", "path": "harness/src/engines/svc.rs", "serves_properties": ["C11", "C12", "C14", "C17", "C20"], "kind_free_text": "real Discv5/Service with a scripted handler (channels), paused clock; proptest scripts"},
             {"name": "table", "path": "harness/src/engines/table.rs", "serves_properties": ["C07", "C08", "C16"], "kind_free_text": "proptest op histories over the real KBucketsTable"},
-            {"name": "fuzz", "path": "fuzz/ (cargo-fuzz crate), harness/src/fuzzdec.rs, tools/fuzz.sh", "serves_properties": ["C05", "C06", "C07", "C08", "C09", "C10"], "kind_free_text": "libFuzzer targets that decode bytes into the same case types and call the same Property::run oracle as the proptest checks; run by the thorough tier with a fixed number of executions"},
+            {"name": "fuzz", "path": "fuzz/ (cargo-fuzz crate), harness/src/fuzzdec.rs, tools/fuzz.sh", "serves_properties": ["C05", "C06", "C07", "C08", "C09", "C10", "C16", "C17", "C18"], "kind_free_text": "libFuzzer targets that decode bytes into the same case types and call the same Property::run oracle as the proptest checks; run by the thorough tier with a fixed number of executions"},
         ],
         "checks": checks,
         "not_applicable": na,
-        "notes": "All checks are property-based tests / fuzzers (proptest via ./check -> harness/target/release/vcheck; thorough tier of C05-C10 additionally runs libFuzzer campaigns via tools/fuzz.sh, VERIF_FUZZ_SCALE multiplies their run counts). Changes written by independent sub-agents and the checks that catch them: seeded/ and DESIGN.md 11.7. Exit 0 held, 1 violation (VIOLATION line + replay file), 2 inconclusive. known_findings.json lists fixed/known defects.",
+        "notes": "All checks are property-based tests / fuzzers (proptest via ./check -> harness/target/release/vcheck; thorough tier of C05-C10, C16, C17, C18 additionally runs libFuzzer campaigns via tools/fuzz.sh, VERIF_FUZZ_SCALE multiplies their run counts). Changes written by independent sub-agents and the checks that catch them: seeded/ and DESIGN.md 11.7. Exit 0 held, 1 violation (VIOLATION line + replay file), 2 inconclusive. known_findings.json lists fixed/known defects.",
     }
     json.dump(m, open("/verif/MANIFEST.json", "w"), indent=1)
     print("checks:", len(checks), "not_applicable:", len(na))
